@@ -33,8 +33,14 @@ import (
 
 type launchScan struct {
 	fset           *token.FileSet
-	funcs          map[string]*ast.FuncDecl // plain functions of the package
-	atomicVars     map[string]bool          // package-level variables of a sync/atomic type
+	funcs          map[string]*ast.FuncDecl   // plain functions of the package
+	methods        map[string][]*ast.FuncDecl // methods of the package's types, by name
+	imports        map[string]bool            // names of imported packages
+	pkgInit        map[string]ast.Expr        // package-level const / var -> initialiser
+	reassigned     map[string]bool            // package-level vars assigned somewhere in a function
+	aliasOf        map[string]string          // local bound to what a helper returned: interrupt := subscribe()
+	stopFns        map[string]bool            // stop functions returned by signal.NotifyContext
+	atomicVars     map[string]bool            // package-level variables of a sync/atomic type
 	acts           []string
 	ignored        map[string]bool
 	notifyChan     string
@@ -45,12 +51,26 @@ type launchScan struct {
 	cmdVars        map[string]bool   // variables bound to exec.Command(...)
 	hookAfterStart bool
 	sawStart       bool
+	pendingCtx     bool                // a signal.NotifyContext call whose results are being bound
+	lastReturn     string              // channel key returned by the function inlined last
 	rename         []map[string]string // per inlined call: callee name -> caller name
 	stack          []string
 }
 
-// sigName normalises a signal expression: os.Interrupt and syscall.SIGINT are the same signal.
-func sigName(e ast.Expr) string {
+// sigName normalises a signal expression: os.Interrupt and syscall.SIGINT are the same signal; package-level
+// constants / never-reassigned variables are replaced by their initialiser (var handshake os.Signal = os.Interrupt).
+func (l *launchScan) sigName(e ast.Expr) string {
+	for i := 0; i < 4; i++ {
+		id, ok := e.(*ast.Ident)
+		if !ok {
+			break
+		}
+		init, ok := l.pkgInit[id.Name]
+		if !ok || l.reassigned[id.Name] {
+			break
+		}
+		e = init
+	}
 	n := callName(e)
 	if n == "os.Interrupt" || n == "syscall.SIGINT" || n == "unix.SIGINT" {
 		return "SIGINT"
@@ -92,7 +112,71 @@ func (l *launchScan) canon(name string) string {
 			break
 		}
 	}
+	for i := 0; i < 4; i++ {
+		if a, ok := l.aliasOf[name]; ok && a != name {
+			name = a
+		} else {
+			break
+		}
+	}
 	return name
+}
+
+// chanKey names a channel expression: a local (by its canonical name), a struct field (by ".field": the launcher's
+// steps may be methods of a small struct), or the Done() channel of a signal.NotifyContext context.
+func (l *launchScan) chanKey(e ast.Expr) string {
+	switch t := e.(type) {
+	case *ast.Ident:
+		return l.canon(t.Name)
+	case *ast.SelectorExpr:
+		return "." + t.Sel.Name
+	case *ast.ParenExpr:
+		return l.chanKey(t.X)
+	case *ast.CallExpr:
+		if se, ok := t.Fun.(*ast.SelectorExpr); ok && se.Sel.Name == "Done" && len(t.Args) == 0 {
+			if id, ok := se.X.(*ast.Ident); ok {
+				return "ctx:" + l.canon(id.Name)
+			}
+		}
+	}
+	return ""
+}
+
+// callee: the same-package function or method a call goes to
+func (l *launchScan) callee(fun ast.Expr) *ast.FuncDecl {
+	switch t := fun.(type) {
+	case *ast.Ident:
+		return l.funcs[t.Name]
+	case *ast.SelectorExpr:
+		if id, ok := t.X.(*ast.Ident); ok && l.imports[id.Name] {
+			return nil
+		}
+		if ms := l.methods[t.Sel.Name]; len(ms) == 1 {
+			return ms[0]
+		}
+	}
+	return nil
+}
+
+// constInt evaluates a capacity expression: a literal or a package-level integer constant
+func (l *launchScan) constInt(e ast.Expr) (string, bool) {
+	for i := 0; i < 4; i++ {
+		switch t := e.(type) {
+		case *ast.BasicLit:
+			return t.Value, t.Kind == token.INT
+		case *ast.Ident:
+			init, ok := l.pkgInit[t.Name]
+			if !ok || l.reassigned[t.Name] {
+				return t.Name, false
+			}
+			e = init
+		case *ast.ParenExpr:
+			e = t.X
+		default:
+			return callName(e), false
+		}
+	}
+	return callName(e), false
 }
 
 func callName(e ast.Expr) string {
@@ -124,6 +208,8 @@ var launchIgnoredExact = map[string]bool{
 }
 
 var launchIgnoredPrefix = []string{"fmt.", "binary.", "strings.", "strconv.", "bytes.", "errors.", "atomic.", "os.Stderr.", "slices.", "maps."}
+
+var backgroundCtx = map[string]bool{"context.Background": true, "context.TODO": true}
 
 func mentions(n ast.Node, pkg, sel string) bool {
 	found := false
@@ -180,7 +266,21 @@ func (l *launchScan) calls(e ast.Node) {
 			switch {
 			case name == "signal.Notify":
 				l.notify(t)
-			case strings.HasSuffix(name, ".Start") && len(t.Args) == 0 && strings.Count(name, ".") == 1:
+			case name == "signal.NotifyContext":
+				// an internal channel with room for one signal, installed at the call; the first signal cancels the context
+				if len(t.Args) >= 1 {
+					if pc, ok := t.Args[0].(*ast.CallExpr); ok && backgroundCtx[callName(pc.Fun)] && len(pc.Args) == 0 {
+						l.notifySeen, l.pendingCtx = true, true
+						for _, a := range t.Args[1:] {
+							l.notifySigs = append(l.notifySigs, l.sigName(a))
+						}
+						l.acts = append(l.acts, "ANotify")
+						return false
+					}
+				}
+				l.unknown(t, "signal.NotifyContext on a context that may end by itself")
+				return false
+			case strings.HasSuffix(name, ".Start") && len(t.Args) == 0 && strings.Contains(name, "."):
 				l.acts = append(l.acts, "AStart")
 				l.sawStart = true
 			case mentions(t, "os", "Stdout"):
@@ -193,18 +293,18 @@ func (l *launchScan) calls(e ast.Node) {
 						l.hookAfterStart = true
 					}
 				}
+			case l.callee(t.Fun) != nil:
+				if se, ok := t.Fun.(*ast.SelectorExpr); ok {
+					l.calls(se.X) // newLauncher(name).run(): the receiver expression first
+				}
+				for _, a := range t.Args {
+					l.calls(a)
+				}
+				l.inline(t, l.callee(t.Fun))
+				return false
 			case l.harmless(name, t):
 				l.ignored[name] = true
 			default:
-				if id, ok := t.Fun.(*ast.Ident); ok {
-					if fd := l.funcs[id.Name]; fd != nil {
-						for _, a := range t.Args {
-							l.calls(a)
-						}
-						l.inline(t, fd)
-						return false
-					}
-				}
 				l.unknown(t, "call "+name)
 			}
 			return true
@@ -225,13 +325,11 @@ func (l *launchScan) has(a string) bool {
 func (l *launchScan) notify(t *ast.CallExpr) {
 	ch := ""
 	if len(t.Args) > 0 {
-		if id, ok := t.Args[0].(*ast.Ident); ok {
-			ch = l.canon(id.Name)
-		}
+		ch = l.chanKey(t.Args[0])
 	}
 	l.notifyChan, l.notifySeen = ch, true
 	for _, a := range t.Args[min(1, len(t.Args)):] {
-		l.notifySigs = append(l.notifySigs, sigName(a))
+		l.notifySigs = append(l.notifySigs, l.sigName(a))
 	}
 	// os/signal never blocks when it delivers: the channel needs room for the signal
 	capExpr, known := l.chanCap[ch]
@@ -262,6 +360,13 @@ func (l *launchScan) inline(call *ast.CallExpr, fd *ast.FuncDecl) {
 		return
 	}
 	ren := map[string]string{}
+	if fd.Recv != nil && len(fd.Recv.List) == 1 && len(fd.Recv.List[0].Names) == 1 {
+		if se, ok := call.Fun.(*ast.SelectorExpr); ok {
+			if id, ok := se.X.(*ast.Ident); ok {
+				ren[fd.Recv.List[0].Names[0].Name] = l.canon(id.Name)
+			}
+		}
+	}
 	if fd.Type.Params != nil {
 		i := 0
 		for _, p := range fd.Type.Params.List {
@@ -277,24 +382,67 @@ func (l *launchScan) inline(call *ast.CallExpr, fd *ast.FuncDecl) {
 	}
 	l.rename = append(l.rename, ren)
 	l.stack = append(l.stack, fd.Name.Name)
+	l.lastReturn = ""
 	l.stmts(fd.Body.List, false)
+	// what it returns, if that is a channel the scan knows (interrupt := subscribe())
+	ret := ""
+	ast.Inspect(fd.Body, func(n ast.Node) bool {
+		switch t := n.(type) {
+		case *ast.FuncLit:
+			return false
+		case *ast.ReturnStmt:
+			if len(t.Results) == 1 {
+				if k := l.chanKey(t.Results[0]); k != "" {
+					if _, known := l.chanCap[k]; known {
+						ret = k
+					}
+				}
+			}
+		}
+		return true
+	})
 	l.stack = l.stack[:len(l.stack)-1]
 	l.rename = l.rename[:len(l.rename)-1]
+	l.lastReturn = ret
 }
 
-// waiter: go func() { … x.Wait() … close(c) / c <- … }() — returns the channel it signals on
-func (l *launchScan) waiter(fl *ast.FuncLit) (string, bool) {
+// waiter: go func() { … x.Wait() … close(c) / c <- … }(), go waitDaemon(cmd, c), go l.watch() — the goroutine that
+// waits for the daemon; returns the channel it signals on. Same-package functions are followed.
+func (l *launchScan) waiter(body *ast.BlockStmt, depth int) (string, bool) {
 	hasWait, ch := false, ""
-	ast.Inspect(fl.Body, func(n ast.Node) bool {
+	ast.Inspect(body, func(n ast.Node) bool {
 		switch t := n.(type) {
 		case *ast.CallExpr:
 			name := callName(t.Fun)
 			switch {
-			case strings.HasSuffix(name, ".Wait") && len(t.Args) == 0:
+			case strings.HasSuffix(name, ".Wait") && len(t.Args) == 0 && l.callee(t.Fun) == nil:
 				hasWait = true
 			case name == "close" && len(t.Args) == 1:
-				if id, ok := t.Args[0].(*ast.Ident); ok {
-					ch = l.canon(id.Name)
+				ch = l.chanKey(t.Args[0])
+			case l.callee(t.Fun) != nil && depth < 4:
+				fd := l.callee(t.Fun)
+				ren := map[string]string{}
+				if fd.Type.Params != nil {
+					i := 0
+					for _, p := range fd.Type.Params.List {
+						for _, pn := range p.Names {
+							if i < len(t.Args) {
+								if id, ok := t.Args[i].(*ast.Ident); ok {
+									ren[pn.Name] = l.canon(id.Name)
+								}
+							}
+							i++
+						}
+					}
+				}
+				l.rename = append(l.rename, ren)
+				c2, w2 := l.waiter(fd.Body, depth+1)
+				l.rename = l.rename[:len(l.rename)-1]
+				if w2 {
+					hasWait = true
+				}
+				if c2 != "" {
+					ch = c2
 				}
 			case l.harmless(name, t):
 				l.ignored[name] = true
@@ -302,13 +450,33 @@ func (l *launchScan) waiter(fl *ast.FuncLit) (string, bool) {
 				l.unknown(t, "call "+name+" in the goroutine that waits for the daemon")
 			}
 		case *ast.SendStmt:
-			if id, ok := t.Chan.(*ast.Ident); ok {
-				ch = l.canon(id.Name)
-			}
+			ch = l.chanKey(t.Chan)
 		}
 		return true
 	})
 	return ch, hasWait
+}
+
+// onlyStops: a function whose body does nothing but signal.Stop / harmless calls (defer l.unlisten())
+func (l *launchScan) onlyStops(fd *ast.FuncDecl) bool {
+	ok := true
+	ast.Inspect(fd.Body, func(n ast.Node) bool {
+		if c, isCall := n.(*ast.CallExpr); isCall {
+			name := callName(c.Fun)
+			if name != "signal.Stop" && !l.harmless(name, c) {
+				ok = false
+			}
+		}
+		return true
+	})
+	return ok
+}
+
+func callFun(e ast.Expr) ast.Expr {
+	if c, ok := e.(*ast.CallExpr); ok {
+		return c.Fun
+	}
+	return nil
 }
 
 func (l *launchScan) stmts(list []ast.Stmt, top bool) {
@@ -318,26 +486,39 @@ func (l *launchScan) stmts(list []ast.Stmt, top bool) {
 }
 
 func (l *launchScan) noteAssign(lhs, rhs ast.Expr) {
-	id, isId := lhs.(*ast.Ident)
 	ce, isCall := rhs.(*ast.CallExpr)
-	if !isId || !isCall {
+	key := l.chanKey(lhs)
+	if !isCall || key == "" {
 		return
 	}
 	if fn, ok := ce.Fun.(*ast.Ident); ok && fn.Name == "make" && len(ce.Args) >= 1 {
 		if _, isChan := ce.Args[0].(*ast.ChanType); isChan {
 			c := ""
 			if len(ce.Args) >= 2 {
-				c = callName(ce.Args[1])
-				if bl, ok := ce.Args[1].(*ast.BasicLit); ok {
-					c = bl.Value
-				}
+				c, _ = l.constInt(ce.Args[1])
 			}
-			l.chanCap[l.canon(id.Name)] = c
+			l.chanCap[key] = c
 		}
 	}
-	if callName(ce.Fun) == "exec.Command" {
+	if id, isId := lhs.(*ast.Ident); isId && callName(ce.Fun) == "exec.Command" {
 		l.cmdVars[id.Name] = true
 	}
+}
+
+// noteLiteral: &launcher{interrupt: make(chan os.Signal, 1), …}
+func (l *launchScan) noteLiterals(n ast.Node) {
+	ast.Inspect(n, func(x ast.Node) bool {
+		if cl, ok := x.(*ast.CompositeLit); ok {
+			for _, el := range cl.Elts {
+				if kv, ok := el.(*ast.KeyValueExpr); ok {
+					if k, ok := kv.Key.(*ast.Ident); ok {
+						l.noteAssign(&ast.SelectorExpr{X: ast.NewIdent("_"), Sel: k}, kv.Value)
+					}
+				}
+			}
+		}
+		return true
+	})
 }
 
 func (l *launchScan) stmt(s ast.Stmt, last, top bool) {
@@ -349,8 +530,24 @@ func (l *launchScan) stmt(s ast.Stmt, last, top bool) {
 				l.noteAssign(t.Lhs[i], t.Rhs[i])
 			}
 		}
-		for _, r := range t.Rhs {
+		for i, r := range t.Rhs {
+			l.noteLiterals(r)
+			l.lastReturn, l.pendingCtx = "", false
 			l.calls(r)
+			if len(t.Rhs) == 1 {
+				if id, ok := t.Lhs[0].(*ast.Ident); ok && i == 0 {
+					if l.pendingCtx && len(t.Lhs) == 2 { // ctx, stop := signal.NotifyContext(context.Background(), sig…)
+						l.notifyChan = "ctx:" + l.canon(id.Name)
+						l.chanCap[l.notifyChan] = "1"
+						if sid, ok := t.Lhs[1].(*ast.Ident); ok {
+							l.stopFns[sid.Name] = true
+						}
+					} else if l.lastReturn != "" && l.callee(callFun(r)) != nil { // interrupt := subscribe()
+						l.aliasOf[id.Name] = l.lastReturn
+					}
+				}
+			}
+			l.lastReturn, l.pendingCtx = "", false
 		}
 		for _, x := range t.Lhs {
 			// cmd.Stdout / cmd.Stderr / cmd.SysProcAttr … of the daemon's command change what the daemon inherits
@@ -392,14 +589,64 @@ func (l *launchScan) stmt(s ast.Stmt, last, top bool) {
 		if name == "signal.Stop" {
 			return
 		}
+		if id, ok := t.Call.Fun.(*ast.Ident); ok && l.stopFns[id.Name] && len(t.Call.Args) == 0 {
+			return // defer stop() of signal.NotifyContext
+		}
+		if fd := l.callee(t.Call.Fun); fd != nil && l.onlyStops(fd) {
+			return // defer l.unlisten()
+		}
+		if fl, ok := t.Call.Fun.(*ast.FuncLit); ok && len(t.Call.Args) == 0 {
+			okStops := true
+			ast.Inspect(fl.Body, func(n ast.Node) bool {
+				if c, isCall := n.(*ast.CallExpr); isCall {
+					if cn := callName(c.Fun); cn != "signal.Stop" && !l.harmless(cn, c) {
+						okStops = false
+					}
+				}
+				return true
+			})
+			if okStops {
+				return
+			}
+		}
 		l.unknown(t, "defer "+name)
 	case *ast.GoStmt:
+		var body *ast.BlockStmt
+		pushed := false
 		if fl, ok := t.Call.Fun.(*ast.FuncLit); ok {
-			if ch, ok := l.waiter(fl); ok {
+			body = fl.Body
+		} else if fd := l.callee(t.Call.Fun); fd != nil { // go waitDaemon(cmd, finished) / go l.watch()
+			ren := map[string]string{}
+			if fd.Type.Params != nil {
+				i := 0
+				for _, p := range fd.Type.Params.List {
+					for _, pn := range p.Names {
+						if i < len(t.Call.Args) {
+							if id, ok := t.Call.Args[i].(*ast.Ident); ok {
+								ren[pn.Name] = l.canon(id.Name)
+							}
+						}
+						i++
+					}
+				}
+			}
+			l.rename = append(l.rename, ren)
+			pushed = true
+			body = fd.Body
+		}
+		if body != nil {
+			mark := len(l.acts)
+			ch, ok := l.waiter(body, 0)
+			if pushed {
+				l.rename = l.rename[:len(l.rename)-1]
+			}
+			if ok {
+				// unknown calls found inside stay in the list, in front of the action
 				l.acts = append(l.acts, "ASpawnWait")
 				l.finishedChan = ch
 				return
 			}
+			l.acts = l.acts[:mark]
 		}
 		l.unknown(t, "go "+callName(t.Call.Fun))
 	case *ast.SendStmt:
@@ -427,8 +674,8 @@ func (l *launchScan) stmt(s ast.Stmt, last, top bool) {
 			}
 			name := ""
 			if u, ok := e.(*ast.UnaryExpr); ok && u.Op == token.ARROW {
-				if id, ok := u.X.(*ast.Ident); ok {
-					name = l.canon(id.Name)
+				if k := l.chanKey(u.X); k != "" {
+					name = k
 				} else {
 					l.unknown(cc, "select case <-"+callName(u.X))
 					bad = true
@@ -449,6 +696,7 @@ func (l *launchScan) stmt(s ast.Stmt, last, top bool) {
 		}
 	case *ast.ReturnStmt:
 		for _, r := range t.Results {
+			l.noteLiterals(r)
 			l.calls(r)
 		}
 		if top && !last {
@@ -467,15 +715,56 @@ func cmdLaunch(repo string) error {
 		return err
 	}
 	l := &launchScan{fset: fset, funcs: map[string]*ast.FuncDecl{}, atomicVars: map[string]bool{}, ignored: map[string]bool{},
-		chanCap: map[string]string{}, cmdVars: map[string]bool{}}
+		chanCap: map[string]string{}, cmdVars: map[string]bool{}, methods: map[string][]*ast.FuncDecl{}, imports: map[string]bool{},
+		pkgInit: map[string]ast.Expr{}, reassigned: map[string]bool{}, aliasOf: map[string]string{}, stopFns: map[string]bool{}}
 	for _, f := range files {
+		for _, im := range f.Imports {
+			p := strings.Trim(im.Path.Value, `"`)
+			n := p[strings.LastIndex(p, "/")+1:]
+			if im.Name != nil {
+				n = im.Name.Name
+			}
+			l.imports[n] = true
+		}
 		for _, d := range f.Decls {
 			switch x := d.(type) {
 			case *ast.FuncDecl:
 				if x.Recv == nil && x.Body != nil {
 					l.funcs[x.Name.Name] = x
+				} else if x.Body != nil {
+					l.methods[x.Name.Name] = append(l.methods[x.Name.Name], x)
+				}
+				if x.Body != nil {
+					ast.Inspect(x.Body, func(n ast.Node) bool {
+						switch a := n.(type) {
+						case *ast.AssignStmt:
+							if a.Tok == token.ASSIGN {
+								for _, lh := range a.Lhs {
+									if id, ok := lh.(*ast.Ident); ok {
+										l.reassigned[id.Name] = true
+									}
+								}
+							}
+						case *ast.UnaryExpr:
+							if a.Op == token.AND {
+								if id, ok := a.X.(*ast.Ident); ok {
+									l.reassigned[id.Name] = true
+								}
+							}
+						}
+						return true
+					})
 				}
 			case *ast.GenDecl:
+				if x.Tok == token.VAR || x.Tok == token.CONST {
+					for _, sp := range x.Specs {
+						if vs, ok := sp.(*ast.ValueSpec); ok && len(vs.Names) == len(vs.Values) {
+							for i, n := range vs.Names {
+								l.pkgInit[n.Name] = vs.Values[i]
+							}
+						}
+					}
+				}
 				if x.Tok == token.VAR {
 					for _, sp := range x.Specs {
 						if vs, ok := sp.(*ast.ValueSpec); ok && vs.Type != nil && strings.HasPrefix(strings.TrimPrefix(typeString(vs.Type), "*"), "atomic.") {
@@ -523,28 +812,36 @@ func cmdLaunch(repo string) error {
 	}
 	// Done(): which signal, to whom (any file of the package)
 	doneSig, donePpid := "", false
-	if x := l.funcs["Done"]; x != nil {
-		ast.Inspect(x.Body, func(n ast.Node) bool {
+	var scanDone func(body *ast.BlockStmt, depth int)
+	scanDone = func(body *ast.BlockStmt, depth int) {
+		ast.Inspect(body, func(n ast.Node) bool {
 			if c, ok := n.(*ast.CallExpr); ok {
 				name := callName(c.Fun)
 				if strings.HasSuffix(name, ".Signal") && len(c.Args) == 1 {
-					doneSig = sigName(c.Args[0])
+					doneSig = l.sigName(c.Args[0])
 				}
 				if (name == "syscall.Kill" || name == "unix.Kill") && len(c.Args) == 2 {
-					doneSig = sigName(c.Args[1])
+					doneSig = l.sigName(c.Args[1])
 				}
 				if name == "os.Getppid" || name == "syscall.Getppid" {
 					donePpid = true
+				}
+				if fd := l.callee(c.Fun); fd != nil && depth < 4 { // parent() wrapping os.FindProcess(os.Getppid())
+					scanDone(fd.Body, depth+1)
 				}
 			}
 			return true
 		})
 	}
+	if x := l.funcs["Done"]; x != nil {
+		scanDone(x.Body, 0)
+	}
 	switch {
 	case doneSig == "" || !donePpid:
 		l.acts = append(l.acts, "AUnknown "+coqString("func Done: no signal sent to os.Getppid() recognised"))
-	case doneSig != "SIGINT":
-		// the model's Done() sends SIGINT; any other signal would need its own reading
+	case doneSig != "SIGINT" && !(len(l.notifySigs) == 1 && l.notifySigs[0] == doneSig && !strings.Contains(doneSig, ".")):
+		// the model's Done() sends SIGINT; another signal would need its own reading — except one package-level
+		// identifier used by BOTH signal.Notify and Done() that the scan cannot resolve (same declaration = match)
 		l.acts = append(l.acts, "AUnknown "+coqString("func Done sends "+doneSig+", not SIGINT"))
 	default:
 		listens := len(l.notifySigs) == 0
